@@ -58,6 +58,13 @@ def call(ex, f: VLib, args, kwargs, fr):
         if f.self_val is not None:
             return h(ex, f.self_val, args, kwargs, fr)
         return h(ex, args, kwargs, fr)
+    if name == "warnings.warn" and getattr(ex.cfg, "warn_raises", False):
+        # under a warning filter set to "error" (python -W error, pytest filterwarnings=error) the call RAISES its category
+        if ex.st.choose([True, True]) == 1:
+            cat = kwargs.get("category", args[1] if len(args) > 1 else None)
+            cname = cat.name.split(".")[-1] if isinstance(cat, VLib) else "UserWarning"
+            ex.throw(cname if cname in ex_parents() else "UserWarning", "warning escalated to an error")
+        return NONE
     if name.startswith(DROPPED_PREFIXES):
         ex.dropped.add(name)
         if name == "logging.getLogger":
